@@ -434,3 +434,29 @@ pub fn expect_all(nexts: &[Next], want: &[&MValue]) -> Result<(), String> {
 	}
 	Ok(())
 }
+
+/// Drive a reader with the event-budgeted, non-collecting digest target (for
+/// corrupted inputs, where only totality is asserted): returns the number of
+/// Ok(Some) results
+pub fn drive_reader_digest<'de, R>(rd: &mut Reader<R>, max_calls: usize, event_budget: u64) -> usize
+where
+	R: serde_avro_fast::de::read::ReadSlice<'de> + serde_avro_fast::de::read::take::Take + std::io::BufRead,
+	<R as serde_avro_fast::de::read::take::Take>::Take: serde_avro_fast::de::read::ReadSlice<'de> + std::io::BufRead,
+{
+	let mut n = 0;
+	let mut ends = 0;
+	for _ in 0..max_calls {
+		let ds = DigestState::new(event_budget);
+		match rd.deserialize_seed_next(Digest { state: &ds }) {
+			Ok(Some(())) => n += 1,
+			Ok(None) => {
+				ends += 1;
+				if ends >= 2 {
+					break;
+				}
+			}
+			Err(_) => {}
+		}
+	}
+	n
+}
